@@ -38,6 +38,7 @@ func checkC08(p *Prog, c *Check) {
 	c08Commitment(p, c)
 	c08Restart(p, c)
 	c08Snapshot(p, c)
+	repeatedVoteIsSeen(p, c, "C08-R8")
 }
 
 func c08TX(p *Prog, c *Check) {
